@@ -192,6 +192,31 @@ let run_lock (ws : string list) =
       (cnt (function Model.EvWrite _ -> true | _ -> false)) (cnt (function Model.EvBusy _ -> true | _ -> false))
   | _ -> print_endline "lock: bad command"
 
+(* drv N FIN PROG: every maximal execution of Model/Driver.v for a scan of N rows ending
+   FIN (- = nil, E = an error) against the consumer program PROG (N = Next, X = cancel,
+   C = Close); one line per distinct outcome, sorted *)
+let run_drv (args : string list) =
+  match args with
+  | [_; n; fin; prog] ->
+    let n = int_of_string n in
+    let rows = List.init n (fun i -> i + 1) in
+    let e = if fin = "E" then Some () else None in
+    let ops = List.init (String.length prog) (fun i -> match prog.[i] with
+      | 'N' -> Model.CNext | 'X' -> Model.CCancel | 'C' -> Model.CClose | _ -> failwith "bad consumer op") in
+    let outs = Model.drv_outcomes (nat_of_int (16 * n + 4 * String.length prog + 40)) rows e ops in
+    let show (seen, (pc, locked)) =
+      let o = List.rev_map (function
+        | Model.ORow r -> "r" ^ string_of_int r | Model.OEof -> "eof" | Model.OErr () -> "err"
+        | Model.OClosed None -> "closed:nil" | Model.OClosed (Some ()) -> "closed:err") seen in
+      let p = match pc with
+        | Model.PInit -> "start" | Model.PLoop -> "loop" | Model.PSelect _ -> "parked" | Model.PReturned _ -> "returned"
+        | Model.PErrSet -> "errset" | Model.PWgDone -> "wgdone" | Model.PClosed -> "exited" in
+      String.concat " " o ^ " | " ^ p ^ (if locked then " locked" else " unlocked") in
+    let lines = List.sort_uniq compare (List.map show outs) in
+    if lines = [] then print_endline "outcome NONE (fuel)" else
+    List.iter (fun l -> print_endline ("outcome " ^ l)) lines
+  | _ -> print_endline "drv: bad arguments"
+
 let starts_with p s = String.length s >= String.length p && String.sub s 0 (String.length p) = p
 
 let () =
@@ -202,6 +227,7 @@ let () =
       else if line.[0] = '#' then (print_endline line; flush stdout)
       else if starts_with "db " line then load_image (String.sub line 3 (String.length line - 3)) false
       else if starts_with "reload " line then load_image (String.sub line 7 (String.length line - 7)) true
+      else if starts_with "drv " line then run_drv (String.split_on_char ' ' line)
       else if starts_with "mscan " line then run_mscan (String.split_on_char ' ' line)
       else if starts_with "yparse" line then run_yparse (if String.length line > 7 then String.sub line 7 (String.length line - 7) else "")
       else if starts_with "crashphases" line then begin
